@@ -19,7 +19,7 @@
                             `-=` of a descending range loop (false: defect F61, `i -= <negative step>`).
 Every pattern that stops matching raises TranslateError (reported as a broken tie).
 """
-import os, re, subprocess, sys, tempfile
+import hashlib, os, re, subprocess, sys, tempfile
 sys.path.insert(0, os.path.dirname(os.path.abspath(__file__)))
 from cxx2lean import *
 
@@ -262,7 +262,7 @@ def gen_cpu_reduce(src):
 
 
 # ----------------------------------------------------------------------------- tiled map loop nest via `occa translate`
-def occa_translate(okl):
+def occa_translate(okl, mode="serial"):
     exe = None
     for cand in (os.path.join(BUILD, "asan", "bin", "occa"), os.path.join(REPO, "_build", "bin", "occa")):
         if os.path.exists(cand):
@@ -277,7 +277,7 @@ def occa_translate(okl):
     try:
         env = dict(os.environ)
         env.update({"OCCA_DIR": REPO, "ASAN_OPTIONS": "detect_leaks=0", "OCCA_CACHE_DIR": os.path.join(BUILD, "occa_cache_func")})
-        p = subprocess.run([exe, "translate", "-m", "serial", path], capture_output=True, text=True, env=env, timeout=300)
+        p = subprocess.run([exe, "translate", "-m", mode, path], capture_output=True, text=True, env=env, timeout=300)
     finally:
         os.unlink(path)
     if "extern \"C\"" not in p.stdout:
@@ -309,6 +309,7 @@ def gen_map_loops(src):
            "               const int OCCA_ARRAY_TILE_ITERATIONS, int *occa_array_output) {\n"
            "  %s {\n    %s {\n      occa_array_output[i] = i;\n    }\n  }\n}\n" % (tile_loop, par_loop))
     out = occa_translate(okl)
+    gen_map_loops.probe = out
     heads = FOR_RE.findall(out)
     if len(heads) != 3:
         raise TranslateError("translated map kernel has %d for-loops, expected 3:\n%s" % (len(heads), out))
@@ -417,9 +418,30 @@ def gen_empty_guard(src):
             "def emptyGuard : Bool := %s\n" % ("true" if g else "false")), g
 
 
+PROBE2 = """@kernel void k(const int N, const int M, int *a) {
+  for (int o = 0; o < N; o += 2; @tile(4, @outer, @inner)) {
+    a[o] = o;
+  }
+  for (int p = N; p > 0; p -= 3; @tile(2, @outer, @inner, check=false)) {
+    a[p] = p;
+  }
+  for (int o2 = N; o2 > 0; o2 -= 1; @outer) {
+    for (int o3 = 0; o3 < 2; ++o3; @outer) {
+      for (int i = 0; i < M; ++i; @inner) {
+        a[(o2 * 2 + o3) * M + i] += 1;
+      }
+    }
+  }
+}
+"""
+
+
 def gen():
     src = open(os.path.join(REPO, "include/occa/functional/typelessArray.hpp")).read()
     loops, scaled = gen_map_loops(src)
+    # what the OKL front end makes of tiled / outer / inner loops decides what a cached kernel binary contains:
+    # the plugin keys its kernel cache directory by these translations
+    gen.probe_key = hashlib.sha1((gen_map_loops.probe + occa_translate(PROBE2, "openmp")).encode()).hexdigest()[:12]
     fl, is_abs = gen_forloop()
     eg, guard = gen_empty_guard(src)
     out = ["-- GENERATED by translate/gen_range.py from src/functional/range.cpp, include/occa/functional/typelessArray.hpp,",
